@@ -19,7 +19,7 @@ func init() { Registry["C17"] = Prop{Run: runC17, Replay: replayC17} }
 
 // c17node describes one metadata node of a graph.
 type c17node struct {
-	Kind     int   `json:"kind"`     // 0 tuple, 1 DIDerivedType (refs = baseType, scope), 2 tuple with an inline child holding the refs
+	Kind     int   `json:"kind"`     // 0 tuple, 1 DIDerivedType (refs = baseType, scope), 2 tuple with an inline child holding the refs, 3 bare distinct tuple of the refs only (`distinct !{}` when empty)
 	Distinct bool  `json:"distinct"` //
 	IDMode   int   `json:"id_mode"`  // 0 unassigned (-1), 1 explicit dense, 2 explicit sparse
 	Refs     []int `json:"refs"`     // indices of referenced nodes
@@ -96,6 +96,10 @@ func c17build(g c17graph) (*ir.Module, []metadata.Definition) {
 			for _, r := range n.Refs {
 				tuples[i].Fields = append(tuples[i].Fields, defs[r].(metadata.Field))
 			}
+		case 3:
+			for _, r := range n.Refs {
+				tuples[i].Fields = append(tuples[i].Fields, defs[r].(metadata.Field))
+			}
 		case 2:
 			tuples[i].Fields = append(tuples[i].Fields, &metadata.String{Value: fmt.Sprintf("n%d", i)})
 			child := &metadata.Tuple{MetadataID: -1, Fields: []metadata.Field{constant.NewInt(types.I32, int64(i))}}
@@ -135,6 +139,15 @@ func c17expectedLine(g c17graph, ids []int64, i int) string {
 		fmt.Fprintf(&b, "!{!\"n%d\"", i)
 		for _, r := range n.Refs {
 			b.WriteString(", " + ref(r))
+		}
+		b.WriteString("}")
+	case 3:
+		b.WriteString("!{")
+		for k, r := range n.Refs {
+			if k > 0 {
+				b.WriteString(", ")
+			}
+			b.WriteString(ref(r))
 		}
 		b.WriteString("}")
 	case 2:
@@ -232,7 +245,12 @@ func c17checkParsed(m *ir.Module, g c17graph, ids []int64, named []int) string {
 			if n.Kind == 1 {
 				return fmt.Sprintf("!%d parsed as a tuple", ids[i])
 			}
-			fs := x.Fields[1:]
+			var fs []metadata.Field
+			if n.Kind == 3 {
+				fs = x.Fields
+			} else {
+				fs = x.Fields[1:]
+			}
 			if n.Kind == 2 {
 				child, ok := x.Fields[1].(*metadata.Tuple)
 				if !ok || child.ID() != -1 {
@@ -420,12 +438,15 @@ func c17graphs(n int, thorough bool) []c17graph {
 		}
 		subsets = append(subsets, s)
 	}
-	for _, kind := range []int{0, 1, 2} {
+	for _, kind := range []int{0, 1, 2, 3} {
 		for _, distinct := range []bool{false, true} {
 			for idm := 0; idm < 3; idm++ {
 				for _, s := range subsets {
 					if kind == 1 && len(s) > 2 {
 						continue
+					}
+					if kind == 3 && !distinct {
+						continue // bare tuples (`!{}` when nothing is referenced): distinct only, LLVM merges equal uniqued nodes
 					}
 					alts = append(alts, c17node{kind, distinct, idm, s})
 				}
@@ -469,7 +490,7 @@ func runC17(c *fw.Check) {
 	if !c.Quick() {
 		c.SetBudget(45 * 60 * 1e9)
 	}
-	c.Rule = "ALL metadata graphs of <=3 numbered nodes: each node a tuple, a tuple with an inline child, or a DIDerivedType, plain or distinct, with unassigned (-1), dense explicit or sparse explicit ID, referencing EVERY subset of the nodes (forward references, cycles, self references through distinct nodes), all listed in a named metadata node; (quick restricts the 2nd/3rd node of 3-node graphs to tuples). Each graph is built through the API and printed (IDs unique, explicit kept, unassigned = smallest unused in module order, every reference printed as its target's ID, against text built from a reference model), re-parsed (reference and definition are the same object, distinctness and inline-vs-numbered placement preserved), written as text in EVERY definition order with the named metadata split into one definition per operand (merged in textual order, printed in ascending ID order), and on a covering subset compared through llvm-as|llvm-dis. PLUS every reference POSITION (attachments of globals, declarations, definitions, instructions, terminators; metadata call arguments; named metadata; tuple fields; inline tuples in attachments; DI fields): all 2^10 assignments of the positions to two nodes x ID sets x distinctness x definitions before/after uses, each text parsed twice and once more with the two definitions exchanged in the same process: every reference must be the object in Module.MetadataDefs. PLUS the metadata productions of the generator catalogue (all 28 specialised kinds x field subsets x distinct x numbered/inline placement): unique IDs, no dangling printed reference, nodes without definition have no ID, inline placement preserved. distinct = graphs + reference-position modules (x text permutations as transitions)."
+	c.Rule = "ALL metadata graphs of <=3 numbered nodes: each node a tuple, a tuple with an inline child, a bare distinct tuple (`distinct !{}` when it refers to nothing) or a DIDerivedType, plain or distinct, with unassigned (-1), dense explicit or sparse explicit ID, referencing EVERY subset of the nodes (forward references, cycles, self references through distinct nodes), all listed in a named metadata node; (quick restricts the 2nd/3rd node of 3-node graphs to tuples). Each graph is built through the API and printed (IDs unique, explicit kept, unassigned = smallest unused in module order, every reference printed as its target's ID, against text built from a reference model), re-parsed (reference and definition are the same object, distinctness and inline-vs-numbered placement preserved), written as text in EVERY definition order with the named metadata split into one definition per operand (merged in textual order, printed in ascending ID order), and on a covering subset compared through llvm-as|llvm-dis. PLUS every reference POSITION (attachments of globals, declarations, definitions, instructions, terminators; metadata call arguments; named metadata; tuple fields; inline tuples in attachments; DI fields): all 2^10 assignments of the positions to two nodes x ID sets x distinctness x definitions before/after uses, each text parsed twice and once more with the two definitions exchanged in the same process: every reference must be the object in Module.MetadataDefs. PLUS the metadata productions of the generator catalogue (all 28 specialised kinds x field subsets x distinct x numbered/inline placement): unique IDs, no dangling printed reference, nodes without definition have no ID, inline placement preserved. distinct = graphs + reference-position modules (x text permutations as transitions)."
 	var total int
 	for n := 1; n <= maxN; n++ {
 		gs := c17graphs(n, !c.Quick())
